@@ -3,6 +3,7 @@
 #include <manif/manif.h>
 #include <manif/algorithms/interpolation.h>
 #include <manif/algorithms/average.h>
+#include <manif/algorithms/decasteljau.h>
 #include <atomic>
 #include <thread>
 #include <vector>
@@ -54,7 +55,7 @@ template <class G> static void constApi(const Shared<G>& S, Dig& d, Prng& r, boo
   const Eigen::Map<const G> V(S.buf.data());
   std::vector<std::function<void()>> ops;
   Jac Ja, Jb;
-  std::vector<Dig> parts(22);
+  std::vector<Dig> parts(34);
   int k = 0;
   auto add = [&](std::function<void(Dig&)> f) { int idx = k++; ops.push_back([&parts, idx, f]() { f(parts[idx]); }); };
   add([&](Dig& o) { put(o, S.t.exp().coeffs()); });
@@ -79,6 +80,19 @@ template <class G> static void constApi(const Shared<G>& S, Dig& d, Prng& r, boo
   add([&](Dig& o) { put(o, V.compose(S.X).coeffs()); put(o, V.log().coeffs()); put(o, V.adj()); });
   add([&](Dig& o) { put(o, T::Bracket(S.t, S.s).coeffs()); put(o, S.t.generator(0)); put(o, S.t.innerWeights()); });
   add([&](Dig& o) { put(o, G::Identity().coeffs()); put(o, T::Zero().coeffs()); put(o, T::Generator(T::DoF - 1)); });
+  // the Jacobian-returning forms of the elementary operations, the remaining averaging / interpolation routines, curve fitting
+  add([&](Dig& o) { Jac A; put(o, S.t.exp(A).coeffs()); put(o, A); });
+  add([&](Dig& o) { Jac A; put(o, S.X.log(A).coeffs()); put(o, A); });
+  add([&](Dig& o) { Jac A; put(o, S.X.inverse(A).coeffs()); put(o, A); });
+  add([&](Dig& o) { Jac A, B; put(o, S.X.compose(S.Y, A, B).coeffs()); put(o, A); put(o, B); });
+  add([&](Dig& o) { Jac A, B; put(o, S.X.lplus(S.t, A, B).coeffs()); put(o, A); put(o, B); });
+  add([&](Dig& o) { Eigen::Matrix<typename G::Scalar, G::Dim, G::DoF> A; Eigen::Matrix<typename G::Scalar, G::Dim, G::Dim> B; put(o, S.X.act(S.p, A, B)); put(o, A); put(o, B); });
+  add([&](Dig& o) { put(o, average(S.cloud).coeffs()); put(o, average_frechet_right(S.cloud).coeffs()); });
+  add([&](Dig& o) { put(o, interpolate(S.X, S.Y, typename G::Scalar(0.4), INTERP_METHOD::CUBIC, S.t, S.s).coeffs()); o.push_back((double)smoothing_phi(0.3, 3)); });
+  add([&](Dig& o) { auto c = decasteljau(S.cloud, 3, 2, true); o.push_back((double)c.size()); put(o, c.back().coeffs()); });
+  add([&](Dig& o) { put(o, S.X.transform()); put(o, (S.t + S.s).coeffs()); put(o, (S.X * S.Y).coeffs()); put(o, (S.X + S.t).coeffs()); put(o, (S.X - S.Y).coeffs()); });
+  add([&](Dig& o) { put(o, S.X.template cast<float>().coeffs().template cast<double>().eval()); put(o, S.t.template cast<float>().coeffs().template cast<double>().eval()); });
+  if ((int)ops.size() > (int)parts.size()) { fprintf(stderr, "parts too small\n"); abort(); }
   std::vector<int> order(ops.size()); for (size_t i = 0; i < order.size(); ++i) order[i] = (int)i;
   for (int i = (int)order.size() - 1; i > 0; --i) std::swap(order[i], order[r.below(i + 1)]);
   for (int idx : order) {
